@@ -186,7 +186,9 @@ def make_model(rng, nr, force=None):
         dist[lab] = cls[fam.split('*')[0]]
     model = GaussianMultivariate(distribution=dist)
     model.fit(df)
-    return M(model, train, list(model.columns), fams, f'd={d} n={n} labels={lkind} special={special}')
+    mm = M(model, train, list(model.columns), fams, f'd={d} n={n} labels={lkind} special={special}')
+    mm.dist = dist
+    return mm
 
 
 def models_for(ctx, stream, count):
@@ -797,6 +799,89 @@ def oracles(ctx, models, rng, nr, nbatch, deep):
     return checks
 
 
+def history_oracle(ctx, rng, nr, count, deep):
+    """The property is about EVERY fitted model, whatever its history: one instance fitted on A, queried, then fitted
+    again on B must answer exactly like a fresh twin fitted on B (and like the MVN of its own current scores and
+    current correlation); so must a pickle copy and a to_dict/from_dict copy of it."""
+    import pickle
+    from copulas.multivariate import GaussianMultivariate
+    checks = 0
+    for k in range(count):
+        mb = make_model(rng, nr, rng.choice(['none', 'none', 'const', 'nearcopy']))
+        B = pd.DataFrame(mb.train, columns=mb.labels)
+        # data set A: same labels and marginal families, other dependence (columns shuffled independently), other scale
+        A = mb.train.copy()
+        for j in range(mb.d):
+            A[:, j] = A[nr.permutation(len(A)), j] * rng.choice([1.0, 1.7]) + rng.choice([0.0, 0.3]) * mb.sd[j]
+        if mb.d >= 2 and rng.random() < 0.7:      # and a strong dependence between two columns that B does not have
+            i, j = rng.sample(range(mb.d), 2)
+            order = np.argsort(A[:, i])
+            A[order, j] = np.sort(A[:, j]) if rng.random() < 0.5 else np.sort(A[:, j])[::-1]
+        A = pd.DataFrame(A, columns=mb.labels)
+        probes, _ = gen_rows(rng, nr, mb, 5 if not deep else 12, 'mixed')
+        P = pd.DataFrame(probes, columns=mb.labels)
+        warm = rng.choice(['pdf', 'cdf', 'logpdf', 'pdf+cdf'])
+        inst = GaussianMultivariate(distribution=mb.dist)
+        try:
+            inst.fit(A)
+            with np.errstate(all='ignore'):
+                if 'pdf' in warm:
+                    inst.probability_density(P.iloc[:2])
+                if 'cdf' in warm:
+                    inst.cumulative_distribution(P.iloc[:1])
+                if warm == 'logpdf':
+                    inst.log_probability_density(P.iloc[:2])
+            inst.fit(B)
+        except Exception as e:  # noqa   fitting A (a shuffled table) may legitimately fail for some marginals
+            ctx.count('history.skipped:' + vc.exc_kind(e))
+            continue
+        twin = mb.model                                    # a fresh instance fitted on B only
+        ctx.count('history.cases')
+        ctx.count('history.warm=' + warm)
+        variants = [('refit', inst)]
+        try:
+            variants.append(('refit+pickle', pickle.loads(pickle.dumps(inst))))
+            variants.append(('refit+to_dict/from_dict', GaussianMultivariate.from_dict(inst.to_dict())))
+        except Exception:  # noqa   serialisation is C14's business
+            pass
+        hist = {'history': f'fit(A); {warm}(q); fit(B)', 'A_digest': digest(A.to_numpy()), 'B_digest': mb.id}
+        t_pdf = call(lambda: twin.probability_density(P))
+        t_log = call(lambda: twin.log_probability_density(P))
+        t_cdf = call(lambda: twin.cumulative_distribution(P.iloc[:3]))
+        for vname, v in variants:
+            checks += 1
+            same_corr = same_bits(np.asarray(v.correlation, dtype=float).ravel(), mb.corr.ravel())
+            r = call(lambda: v.probability_density(P))
+            # independent reference: MVN of the instance's own current scores with its own CURRENT correlation
+            mv = M(v, mb.train, mb.labels, mb.fams, mb.tag)
+            with np.errstate(all='ignore'):
+                ref = np.atleast_1d(stats.multivariate_normal.pdf(indep_scores(mv, probes), cov=mv.corr, allow_singular=True))
+            ok_twin = r[0] == t_pdf[0] and (r[0] != 'ok' or same_bits(r[1], t_pdf[1]))
+            ok_ref = r[0] == 'ok' and same_bits(r[1], ref)
+            if not (same_corr and ok_twin and ok_ref):
+                ctx.fail_input('probability_density', dict(inp_of(mb, vname, P, probes), **hist),
+                               {'instance': r[1][:4], 'fresh twin fitted on B': t_pdf[1][:4], 'mvn of own scores, own correlation': ref[:4],
+                                'correlation equals twin': same_corr},
+                               'probability_density of a fitted model depends on its current fit only (= fresh model fitted on the '
+                               'same data = MVN(0, current correlation) at the current normal scores)',
+                               'probability_density:depends-on-fit-history')
+            rl = call(lambda: v.log_probability_density(P))
+            checks += 1
+            if not (rl[0] == t_log[0] and (rl[0] != 'ok' or same_bits(rl[1], t_log[1]))):
+                ctx.fail_input('log_probability_density', dict(inp_of(mb, vname, P, probes), **hist),
+                               {'instance': rl[1][:4], 'fresh twin fitted on B': t_log[1][:4]},
+                               'log_probability_density depends on the current fit only', 'log_probability_density:depends-on-fit-history')
+            rc = call(lambda: v.cumulative_distribution(P.iloc[:3]))
+            checks += 1
+            okc = rc[0] == t_cdf[0] and (rc[0] != 'ok' or (rc[1].shape == t_cdf[1].shape and bool(np.all(np.abs(rc[1] - t_cdf[1]) <= EPS_CDF))))
+            if not okc:
+                ctx.fail_input('cumulative_distribution', dict(inp_of(mb, vname, P, probes[:3]), **hist),
+                               {'instance': rc[1], 'fresh twin fitted on B': t_cdf[1]},
+                               'cumulative_distribution depends on the current fit only (within the QMC error 1e-3)',
+                               'cumulative_distribution:depends-on-fit-history')
+    return checks
+
+
 def search(ctx, deep):
     rng = ctx.rng('search')
     nr = ctx.nprng('search')
@@ -806,7 +891,9 @@ def search(ctx, deep):
         models = models + models_for(ctx, 'search', 40 if deep else 4)
     before = len(ctx.failing)
     checks = oracles(ctx, models, rng, nr, nbatch=6 if deep else 1, deep=deep)
-    ctx.support = {'oracle_checks': checks, 'models': len(models), 'failures': len(ctx.failing) - before, 'deep': deep}
+    hchecks = history_oracle(ctx, ctx.rng('history'), ctx.nprng('history'), 16 if deep else 4, deep)
+    ctx.support = {'oracle_checks': checks, 'history_checks': hchecks, 'models': len(models),
+                   'failures': len(ctx.failing) - before, 'deep': deep}
 
 
 def replay(ctx, payload):
